@@ -426,6 +426,11 @@ class TeX(object):
             for order, callbacks in sorted(self.ownerDocument.postParseCallbacks.items()):
                 for callback in callbacks:
                     callback()
+            # Math or lists left open at the end of the input must not be
+            # seen as still open by the next document
+            del MathShift.inEnv[:]
+            from plasTeX.Base.LaTeX.Lists import List
+            List.depth = 0
         return output
 
     def textTokens(self, text):
